@@ -6,7 +6,9 @@ from gen import discs
 from props import common
 
 LEAN_MODULE = 'Beeb.Props.C14'
-LEAVES = ['file_length', 'start_sector', 'last_sector']
+LEAN_MODULES = ['Beeb.Props.C14', 'Beeb.Props.C14b']
+LEAVES = ['file_length', 'start_sector', 'last_sector', 'catalog_sectors_for_format', 'data_sectors_reserved_for_catalog', 'max_file_count',
+          'enum_Format_HDFS', 'enum_Format_DFS', 'enum_Format_WDFS', 'enum_Format_OpusDDOS']
 RULE = ('non-overlapping layouts on Acorn/Watford/Opus catalogues (0..31/62 files, zero-length files next to other files, adjacent files, '
         'gaps before the first and after the last file, either Watford half empty, every Opus volume); the outputs of free, space, sector-map and '
         'extract-unused are parsed and compared with the abstract layout and with each other, and with the Lean model byte for byte. '
